@@ -16,7 +16,8 @@ func init() {
 		Title: "Subscriptions reach exactly the targets they name",
 		Explanation: "Decided: (1) routing — the per-target request map is written at the prefix target (with the original request, unmodified) when the prefix names one, and otherwise at each subscription's own path target, where the very entry that is iterated is appended to the request stored under that key; a split request gets a fresh subscription slice (never a slice of the original's backing array); no field of a subscription entry is written anywhere in the package; " +
 			"(2) copy completeness — the SubscriptionList literal of a split request sets every exported field of the type from the same field of the original (Prefix through copyPrefix, which keeps Origin and Elem and sets the target); the outer request keeps Extension; (3) refusals — a second subscribe, a poll before subscribing, a message of neither kind and a request naming no target return an error and send nothing; " +
-			"(4) a poll is forwarded, in the handler's own goroutine, to the loop's own key for every key of the per-target map; every split request is sent to its own key; the relay passes the received message unchanged to stream.Send.",
+			"(4) a poll is forwarded, in the handler's own goroutine, to the loop's own key for every key of the per-target map; every split request is sent to its own key; the relay passes the received message unchanged to stream.Send." +
+			" Also: one backing client per subscription or a refusal (C19.6, known finding F62); no entry dropped (C19.7); relays serialised (C19.8); refusals carry their class (C19.9); half-close keeps relaying (C19.10); per-target lists fresh (C19.11); the shared subscribed flag is only set (C19.12).",
 		Declined: []string{"behaviour of the gNMI client library (queries, reconnects)", "the deprecated gnmi.Path.Element field of the prefix is not copied"},
 		Run:      runC19,
 		Witness:  []WitnessTarget{{pkgNbGnmi, []string{"splitSubscribeRequest", "copyPrefix", "processSubscribeRequest", "sendSubscriptionRequest", "sendPollRequest"}}},
@@ -77,6 +78,8 @@ func runC19(c *engine.Ctx, tier string) {
 	relaySerialised(c)
 	refusalsCarryTheirClass(c)
 	halfCloseKeepsRelaying(c)
+	perTargetListsAreFresh(c)
+	subscribedFlagOnlySet(c)
 }
 
 func subPaths(c *engine.Ctx, root string) ([]*engine.Path, error) {
@@ -719,6 +722,91 @@ func halfCloseKeepsRelaying(c *engine.Ctx) {
 			o.Fail(&engine.Violation{Key: "Server.Subscribe|half-close ends the subscription", Pos: c.P.Pos(last.Pos), Func: p.Root.Name(),
 				Msg: fmt.Sprintf("after io.EOF from Recv (the subscriber closed its sending direction) the handler returns %v without waiting for the stream context: the RPC ends and the forwarded subscriptions are cancelled", last.Results)})
 			return
+		}
+	}
+}
+
+// perTargetListsAreFresh: C19.11 (seed C19-r41). The entry list of each per-target request is allocated for that
+// target: a slice created once before the loop and put into every target's SubscriptionList shares one backing
+// array, and the first entry appended for a later target overwrites slot 0 of every earlier target's list.
+func perTargetListsAreFresh(c *engine.Ctx) {
+	o := c.Custom("C19.11", "alias(per-target list)", "splitSubscribeRequest: the Subscription list put into a per-target SubscriptionList inside the loop over the entries is allocated inside that loop (or is nil)",
+		"every subscription entry is forwarded unmodified to the target it names and to no other")
+	defer o.Done(1)
+	ps, err := c.A.PathsOpt(pkgNbGnmi, engine.PathOpts{Roots: []string{".splitSubscribeRequest"}, NoInline: true})
+	if err != nil {
+		o.Undecided("splitSubscribeRequest", err.Error())
+		return
+	}
+	for _, p := range ps {
+		loopAt := -1
+		for i := range p.Events {
+			e := &p.Events[i]
+			if e.Kind == engine.EvLoopEnter && strings.Contains(e.Range, "Subscription") && loopAt < 0 {
+				loopAt = i
+			}
+			if loopAt < 0 || e.Kind != engine.EvWrite || e.Field != "gnmi.SubscriptionList.Subscription" || e.Op != "lit" {
+				continue
+			}
+			o.Site(c.P.Pos(e.Pos) + " per-target entry list " + e.RHS)
+			o.Eval(1)
+			if e.RHS == "nil" {
+				continue
+			}
+			fresh := false
+			for j := loopAt; j < i; j++ {
+				if x := &p.Events[j]; x.Kind == engine.EvCall && (x.CalleeName == "make" || x.CalleeName == "new") && x.Canon == e.RHS {
+					fresh = true
+				}
+			}
+			if !fresh {
+				o.Fail(&engine.Violation{Key: "splitSubscribeRequest|per-target entry list shared", Pos: c.P.Pos(e.Pos), Func: p.Root.Name(),
+					Msg: "the entry list of a per-target request is " + c.Render(e.RHS) + ", which was not allocated inside the loop: the lists of all targets share one backing array and an entry appended for one target lands in another target's request"})
+				return
+			}
+		}
+	}
+}
+
+// subscribedFlagOnlySet: C19.12 (seed C19-r42). The `subscribed` flag belongs to the per-target client that
+// all northbound streams share (F62): it says that some subscription stream was opened on the backing client.
+// It is set by Subscribe after the stream was opened and by nothing else; a monitor that clears it when ITS
+// stream ends makes the polls of every other subscriber of that target fail.
+func subscribedFlagOnlySet(c *engine.Ctx) {
+	o := c.Custom("C19.12", "K-own(flag)", "southbound client.subscribed is written only by client.Subscribe, with Store(true)",
+		"a poll is forwarded to every target subscribed on that stream: the flag is shared by the subscribers of a target")
+	defer o.Done(1)
+	ps, err := c.A.PathsOpt("pkg/southbound/gnmi", engine.PathOpts{NoInline: true})
+	if err != nil {
+		o.Undecided("pkg/southbound/gnmi", err.Error())
+		return
+	}
+	reported := map[string]bool{}
+	for _, p := range ps {
+		for i := range p.Events {
+			e := &p.Events[i]
+			if e.Kind != engine.EvCall && e.Kind != engine.EvDefer {
+				continue
+			}
+			if !strings.HasPrefix(e.CalleeName, "atomic.Bool.") || !strings.HasSuffix(e.Recv, ".subscribed") {
+				continue
+			}
+			m := strings.TrimPrefix(e.CalleeName, "atomic.Bool.")
+			if m == "Load" {
+				continue
+			}
+			pos := c.P.Pos(e.Pos)
+			if reported[pos] {
+				continue
+			}
+			o.Site(pos + " " + e.CalleeName + "(" + strings.Join(e.Args, ",") + ") in " + p.Root.Name())
+			o.Eval(1)
+			ok := m == "Store" && len(e.Args) == 1 && e.Args[0] == "true" && p.Root.Name() == "southbound/gnmi.client.Subscribe" && !e.Deferred && e.Kind == engine.EvCall
+			if !ok {
+				reported[pos] = true
+				o.Fail(&engine.Violation{Key: p.Root.Name() + "|subscribed flag written other than Store(true) in Subscribe", Pos: pos, Func: p.Root.Name(),
+					Msg: "the subscribed flag of the per-target client is written by " + m + "(" + strings.Join(e.Args, ",") + ") in " + p.Root.Name() + ": the client is shared by every subscriber of the target, clearing it for one ends the polls of all"})
+			}
 		}
 	}
 }
